@@ -83,13 +83,22 @@ def _entity(d, lex):
         attrs = ""
         # (entity-category: what the entity IS; entity-category-support: which categories it honours as a releasing party - not the same claim)
         for aname, key in (("http://macedir.org/entity-category-support", "entity_category_support"), ("http://macedir.org/entity-category", "entity_categories")):
-            if d.get(key):
+            if d.get(key) and d.get("split_category_attributes"):
+                # the same Name more than once, one value each (legal; what merging aggregators produce)
+                for c in d[key]:
+                    attrs += '<saml:Attribute Name="%s" NameFormat="urn:oasis:names:tc:SAML:2.0:attrname-format:uri"><saml:AttributeValue%s>%s</saml:AttributeValue></saml:Attribute>' % (
+                        aname, typ, esc(c))
+            elif d.get(key):
                 vals = "".join("<saml:AttributeValue%s>%s</saml:AttributeValue>" % (typ, esc(c)) for c in d[key])
                 attrs += '<saml:Attribute Name="%s" NameFormat="urn:oasis:names:tc:SAML:2.0:attrname-format:uri">%s</saml:Attribute>' % (aname, vals)
         if d.get("valueless_entity_attribute"):
             # an entity attribute that is a bare flag (no AttributeValue), in front of the others
             attrs = '<saml:Attribute Name="%s" NameFormat="urn:oasis:names:tc:SAML:2.0:attrname-format:uri"/>' % esc(d["valueless_entity_attribute"]) + attrs
-        parts.append('<md:Extensions><mdattr:EntityAttributes>%s</mdattr:EntityAttributes></md:Extensions>' % attrs)
+        parts.append('<md:Extensions>%s<mdattr:EntityAttributes>%s</mdattr:EntityAttributes></md:Extensions>' % (
+            '<x:Note xmlns:x="urn:example:verif:unknown">n</x:Note>' if d.get("unknown_extension") else "", attrs))
+    elif d.get("unknown_extension"):
+        # Extensions that hold nothing any schema module knows
+        parts.append('<md:Extensions><x:Note xmlns:x="urn:example:verif:unknown">n</x:Note></md:Extensions>')
     # role descriptors for other protocols than SAML 2.0 (d["saml11"] = {"idp": {...}, "sp": {...}, "first": bool}): same entity, same role
     # element, endpoints of their own - nothing of them is a SAML 2.0 endpoint of the entity
     other = d.get("saml11") or {}
